@@ -14,8 +14,50 @@ struct Item {
     mode: &'static str,
 }
 
+/// `--irdump DIR`: run the front half of the pipeline (P-Code project -> IR, `normalize_basic`,
+/// `normalize_optimize`) in THIS process on DIR/pcode.json + DIR/input.elf and print a digest of the
+/// resulting IR (one line per function + one for the whole program). Called in fresh processes.
+fn ir_dump(dir: &str) {
+    use std::hash::{Hash, Hasher};
+    let binary = std::fs::read(format!("{}/input.elf", dir)).expect("elf");
+    let pcode: cwe_checker_lib::pcode::Project =
+        serde_json::from_str(&std::fs::read_to_string(format!("{}/pcode.json", dir)).expect("pcode")).expect("pcode json");
+    let (mut project, _) = cwe_checker_lib::utils::ghidra::parse_pcode_project_to_ir_project(pcode, &binary, &None).expect("ir");
+    let _ = project.normalize_basic();
+    let _ = project.normalize_optimize();
+    // `Debug` of the program term is canonical: all its maps are BTreeMaps/BTreeSets; fixed-key hasher
+    let digest = |s: &str| {
+        #[allow(deprecated)]
+        let mut h = std::hash::SipHasher::new_with_keys(1, 2);
+        s.hash(&mut h);
+        h.finish()
+    };
+    if std::env::var("C23_IRTEXT").is_ok() {
+        for sub in project.program.term.subs.values() {
+            for b in sub.term.blocks.iter() {
+                println!(" BLK {}", b.tid);
+                for d in b.term.defs.iter() {
+                    println!("   {}: {}", d.tid, d.term);
+                }
+                for j in b.term.jmps.iter() {
+                    println!("   {}: {}", j.tid, j.term);
+                }
+            }
+        }
+    }
+    for (tid, sub) in project.program.term.subs.iter() {
+        let text = format!("{:?}", sub);
+        println!("{} {:016x} {}", tid, digest(&text), text.len());
+    }
+    println!("program {:016x}", digest(&format!("{:?}", project.program)));
+}
+
 fn main() {
     let args = Args::parse();
+    if let Some(d) = args.extra.get("irdump") {
+        ir_dump(d);
+        return;
+    }
     let mut out = Out::new(
         &args,
         "real cwe_checker CLI run repeatedly in fresh processes on the same generated input (random multi-function \
@@ -69,16 +111,18 @@ fn main() {
         let mut fixed: Vec<Recipe> = Recipe::always_diverge();
         fixed.extend(Recipe::always_isolated());
         fixed.extend(Recipe::always_uaf());
+        fixed.extend(Recipe::always_chains());
         let n_fixed = fixed.len();
         for i in 0..n_inputs + n_fixed {
             let mut rc = if i < n_fixed {
                 fixed[i].clone()
             } else {
-                match if args.extra.contains_key("only_deep_chain") { 8 } else { rng.below(12) } {
+                match if args.extra.contains_key("only_deep_chain") { 8 } else if args.extra.contains_key("only_twin") { 12 } else { rng.below(13) } {
                     0..=3 => Recipe::random_program(&mut rng),
                     4..=6 => Recipe::random_shared(&mut rng),
                     7 => if rng.chance(1, 2) { Recipe::random_diverge(&mut rng) } else { Recipe::random_isolated(&mut rng) },
                     8 => Recipe::random_deep_chain(&mut rng),
+                    12 => Recipe::random_twin_chain(&mut rng),
                     _ => Recipe::random_gadget(&mut rng),
                 }
             };
@@ -126,6 +170,49 @@ fn main() {
         run_cli(&cli, files, cfgp, items[i].partials[r].as_deref(), limit)
     });
 
+    // second stream: the normalised IR (the input of every check) must be identical in fresh processes
+    let me = std::env::current_exe().expect("current exe");
+    let ir_jobs: Vec<(usize, usize)> = (0..items.len()).flat_map(|i| (0..nruns.min(8)).map(move |r| (i, r))).collect();
+    let ir_results: Vec<RunResult> = parallel(&ir_jobs, th, |_, &(i, _)| {
+        let (_, files, _, _) = &prepared[i];
+        let mut cmd = std::process::Command::new(&me);
+        cmd.arg("--irdump").arg(&files.dir);
+        run_limited(cmd, std::time::Duration::from_secs(limit))
+    });
+    let mut ir_k = 0;
+    let mut ir_lines: Vec<String> = Vec::new();
+    for (i, it) in items.iter().enumerate() {
+        let (inp, _, _, cfg_lkm) = &prepared[i];
+        let mut distinct: Vec<(i64, String, u64)> = Vec::new();
+        for _ in 0..nruns.min(8) {
+            let r = &ir_results[ir_k];
+            ir_k += 1;
+            let exit: i64 = if r.timed_out { -2 } else { r.exit.unwrap_or(-1) as i64 };
+            let outp = if exit == 0 { r.stdout.clone() } else { format!("exit {} {}", exit, panic_location(&r.stderr)) };
+            if let Some(d) = distinct.iter_mut().find(|d| d.0 == exit && d.1 == outp) {
+                d.2 += 1;
+            } else {
+                distinct.push((exit, outp, 1));
+            }
+        }
+        let mut line = json!({
+            "mode": "ir",
+            "runs": nruns.min(8),
+            "cfg_lkm": cfg_lkm,
+            "partials": Vec::<Option<String>>::new(),
+            "distinct": distinct.iter().map(|d| json!({"exit": d.0, "stderr": "", "stdout": d.1, "n": d.2})).collect::<Vec<_>>(),
+        });
+        if let Some(rc) = &it.recipe {
+            line["gen"] = rc.json();
+        }
+        if distinct.len() > 1 || it.recipe.is_none() {
+            line["proj"] = json!(inp.project);
+            line["elf"] = json!(hex(&inp.elf));
+        }
+        out.count(&format!("ir_distinct_digests:{}", distinct.len()));
+        ir_lines.push(line.to_string());
+    }
+
     let mut k = 0;
     for (i, it) in items.iter().enumerate() {
         let (inp, _, _, cfg_lkm) = &prepared[i];
@@ -169,6 +256,9 @@ fn main() {
         out.count_n("warnings_in_first_output", nwarn as u64);
         let key = format!("{}", i);
         out.case(&line.to_string(), if nwarn > 0 { Some(&key) } else { None });
+    }
+    for l in ir_lines.iter() {
+        out.case(l, None);
     }
     let _ = std::fs::remove_dir_all(&root);
     out.finish();
